@@ -6,6 +6,7 @@
 //! (input distribution, oracle results).
 mod alloc;
 mod c09;
+mod c13;
 mod c20;
 mod codec;
 mod util;
@@ -29,6 +30,7 @@ fn main() {
     let mut out = util::Out::new();
     match prop {
         "C09" => c09::run(&mut out, thorough, seed),
+        "C13" => c13::run(&mut out, thorough, seed),
         "C20" => c20::run(&mut out, thorough, seed),
         "C07" | "C08" => codec::run(&mut out, thorough, seed, prop),
         _ => {
